@@ -494,6 +494,23 @@ def constraints_from_atom(ev, d, rel, vals):
     out = []
     if tr is None:
         return [("other", "switch %s %s %s" % (show(d), rel, sorted(vals)))]
+    d0_ = d
+    while d0_[0] in ("ref", "deref"):
+        d0_ = d0_[1]
+    if d0_[0] == "call" and d0_[1].endswith(("RangeInclusive::<Idx>::contains", "Range::<Idx>::contains")) and len(d0_[2]) == 2 and tr is True:
+        # (lo..=hi).contains(&x) on the accept path: lo <= x and x <= hi (x < hi for a half-open range)
+        rg = d0_[2][0]
+        while rg[0] in ("ref", "deref", "mut"):
+            rg = rg[1] if rg[0] != "mut" else rg[2]
+        lo = hi = None
+        if rg[0] == "call" and rg[1].endswith("RangeInclusive::<Idx>::new") and len(rg[2]) == 2:
+            lo, hi, hop = rg[2][0], rg[2][1], "Le"
+        elif rg[0] == "aggr" and rg[1].endswith("Range::Range") and len(rg[2]) == 2:
+            lo, hi, hop = rg[2][0], rg[2][1], "Lt"
+        if lo is not None:
+            x_ = d0_[2][1]
+            return constraints_from_atom(ev, ("bin", "Le", lo, x_), "notin", frozenset([0])) + \
+                constraints_from_atom(ev, ("bin", hop, x_, hi), "notin", frozenset([0]))
     c = as_cmp(d, tr)
     if c is None:
         # bare boolean value
